@@ -5,6 +5,7 @@
 import RevalModel.Lemmas.Table
 import RevalModel.Lemmas.NoneType
 import RevalModel.Lemmas.Calendar
+import RevalModel.Lemmas.DecExact
 
 namespace Reval.C02
 
@@ -32,6 +33,69 @@ theorem bitwise_int (o : Oracle) (a b : Int) :
     applyBin o .bitXor (.int a) (.int b) = .ok (.int (I128.xor a b)) ∧
     applyBin o .contains (.int a) (.int b) = .ok (.bool (I128.land a b != 0)) := by
   simp [applyBin, Impl.bitwiseAnd, Impl.bitwiseOr, Impl.bitwiseXor, Impl.contains]
+
+/-- `& | ^` on Ints act bit by bit on the 128-bit two's-complement patterns (and an in-range Int is its pattern) -/
+theorem bitwise_bit_by_bit (a b : Int) (i : Nat) :
+    I128.bit (I128.land a b) i = (I128.bit a i && I128.bit b i) ∧
+    I128.bit (I128.lor a b) i = (I128.bit a i || I128.bit b i) ∧
+    I128.bit (I128.xor a b) i = (I128.bit a i != I128.bit b i) ∧
+    (I128.inRange a = true → I128.ofU (I128.toU a) = a) :=
+  ⟨I128.land_bit a b i, I128.lor_bit a b i, I128.xor_bit a b i, fun h => I128.ofU_toU h⟩
+
+/-- Decimal comparisons are the order of the values `num / 10^scale`, whatever the scales (`d1.0 ≤ d1.00 ≤ d1.0`) -/
+theorem decimal_order (o : Oracle) (a b : Dec) :
+    applyBin o .lt (.dec a) (.dec b) = .ok (.bool (decide (a.num * 10 ^ b.scale < b.num * 10 ^ a.scale))) ∧
+    applyBin o .lte (.dec a) (.dec b) = .ok (.bool (decide (a.num * 10 ^ b.scale ≤ b.num * 10 ^ a.scale))) ∧
+    applyBin o .gt (.dec a) (.dec b) = .ok (.bool (decide (b.num * 10 ^ a.scale < a.num * 10 ^ b.scale))) ∧
+    applyBin o .gte (.dec a) (.dec b) = .ok (.bool (decide (b.num * 10 ^ a.scale ≤ a.num * 10 ^ b.scale))) ∧
+    (Value.peq (.dec a) (.dec b) = true ↔ a.num * 10 ^ b.scale = b.num * 10 ^ a.scale) := by
+  refine ⟨?_, ?_, ?_, ?_, ?_⟩
+  · simp only [applyBin, Impl.lt]; congr 2; exact Bool.eq_iff_iff.mpr (by simpa using Dec.lt_iff_cross a b)
+  · simp only [applyBin, Impl.lte]; congr 2; exact Bool.eq_iff_iff.mpr (by simpa using Dec.le_iff_cross a b)
+  · simp only [applyBin, Impl.gt]; congr 2; exact Bool.eq_iff_iff.mpr (by simpa using Dec.lt_iff_cross b a)
+  · simp only [applyBin, Impl.gte]; congr 2; exact Bool.eq_iff_iff.mpr (by simpa using Dec.le_iff_cross b a)
+  · simp only [Value.peq]; exact Dec.eqNum_iff_cross a b
+
+/-- `floor`, `round`, `fract` of a Decimal, whenever the model predicts them (a zero result is left to the library):
+    the greatest integer not above the value; a nearest integer, the even one on a tie; the fractional digits -/
+theorem decimal_rounding (d r : Dec) :
+    (Dec.floor d = .val r → r.scale = 0 ∧ r.num * 10 ^ d.scale ≤ d.num ∧ d.num < (r.num + 1) * 10 ^ d.scale) ∧
+    (Dec.round d = .val r → r.scale = 0 ∧ r.neg = d.neg ∧
+       2 * ((r.mant : Int) * (10 ^ d.scale : Nat) - d.mant).natAbs ≤ 10 ^ d.scale ∧
+       (2 * (d.mant % 10 ^ d.scale) = 10 ^ d.scale → r.mant % 2 = 0)) ∧
+    (Dec.fract d = .val r → r.scale = d.scale ∧ r.neg = d.neg ∧ r.mant = d.mant % 10 ^ d.scale ∧
+       d.mant = (d.mant / 10 ^ d.scale) * 10 ^ d.scale + r.mant) :=
+  ⟨Dec.floor_spec, Dec.round_spec, Dec.fract_spec⟩
+
+/-- a span built from `i` weeks / days / hours / minutes / seconds reads back as exactly `i` of them -/
+theorem duration_units_roundtrip (o : Oracle) (i : Int) (v : Value) :
+    (applyUn o .week (.int i) = .ok v → applyUn o .week v = .ok (.int i)) ∧
+    (applyUn o .day (.int i) = .ok v → applyUn o .day v = .ok (.int i)) ∧
+    (applyUn o .hour (.int i) = .ok v → applyUn o .hour v = .ok (.int i)) ∧
+    (applyUn o .minute (.int i) = .ok v → applyUn o .minute v = .ok (.int i)) ∧
+    (applyUn o .second (.int i) = .ok v → applyUn o .second v = .ok (.int i)) := by
+  have key : ∀ u, (u = 604800 ∨ u = 86400 ∨ u = 3600 ∨ u = 60 ∨ u = 1) →
+      Impl.mkDuration u (.int i) i = .ok v → ∃ d, v = .duration d ∧ Time.numUnits u d = i := by
+    intro u hu h
+    unfold Impl.mkDuration at h
+    split at h
+    · rename_i d hd
+      injection h with h; subst h
+      split at hd
+      · exact ⟨d, rfl, Time.units_roundtrip u i d hu hd⟩
+      · simp at hd
+    · simp at h
+  refine ⟨?_, ?_, ?_, ?_, ?_⟩
+  · intro h; obtain ⟨d, rfl, hd⟩ := key 604800 (by simp) (by simpa [applyUn, Impl.week] using h)
+    simp [applyUn, Impl.week, hd]
+  · intro h; obtain ⟨d, rfl, hd⟩ := key 86400 (by simp) (by simpa [applyUn, Impl.day] using h)
+    simp [applyUn, Impl.day, hd]
+  · intro h; obtain ⟨d, rfl, hd⟩ := key 3600 (by simp) (by simpa [applyUn, Impl.hour] using h)
+    simp [applyUn, Impl.hour, hd]
+  · intro h; obtain ⟨d, rfl, hd⟩ := key 60 (by simp) (by simpa [applyUn, Impl.minute] using h)
+    simp [applyUn, Impl.minute, hd]
+  · intro h; obtain ⟨d, rfl, hd⟩ := key 1 (by simp) (by simpa [applyUn, Impl.second] using h)
+    simp [applyUn, Impl.second, hd]
 
 /-- membership: map key, list member (by `==`), substring -/
 theorem contains_semantics (o : Oracle) (m : List (Str × Value)) (k : Str) (xs : List Value) (x : Value) (s t : Str) :
